@@ -8,7 +8,8 @@ import sympy as sp
 from .. import sym
 from ..core import AnalysisError, arg_or_kw, kwarg, norm, walk_no_nested
 from ..regionmodel import levelset_owner, pixeldict_aliases, region_methods
-from .c08 import _depends_on_call, _resolve_local, r6_levels
+from .c08 import (_depends_on_call, _resolve_local, r6_levels,
+                  r9_cache_alias)
 
 EXPLANATION = (
     "Static analysis of Region._uniq / write_fits / write_reg / save / load. "
@@ -60,12 +61,20 @@ MUTANTS = [
      "zip(*hp.boundaries(2**d, int(p), step=1, nest=True)))",
      "zip(*hp.boundaries(2**self.maxdepth, int(p), step=1, nest=True)))",
      "C12-R4"),
+    ("save empties the cache in place (seed C12b)", "AegeanTools/regions.py",
+     "        cPickle.dump(self, open(mimfile, 'wb'), protocol=2)",
+     "        self.demoted.clear()\n"
+     "        cPickle.dump(self, open(mimfile, 'wb'), protocol=2)", "C12-R6"),
     ("getstate drops cache", "AegeanTools/regions.py",
      "    def __repr__(self):\n        r = \"Region with",
      "    def __getstate__(self):\n        return {'maxdepth': self.maxdepth}"
      "\n\n    def __repr__(self):\n        r = \"Region with", "C12-R5"),
 ]
 TWINS = [
+    ("save drops the cache by re-binding", "AegeanTools/regions.py",
+     "        cPickle.dump(self, open(mimfile, 'wb'), protocol=2)",
+     "        self.demoted = set()\n"
+     "        cPickle.dump(self, open(mimfile, 'wb'), protocol=2)"),
     ("nuniq spelled 4*4**d", "AegeanTools/regions.py",
      "map(lambda x: int(4**(d+1) + x), self.pixeldict[d])",
      "map(lambda x: int(4 * 4**d + x), self.pixeldict[d])"),
@@ -77,6 +86,9 @@ def run(ctx):
     prog = ctx.prog
     ci = region_methods(prog)
     r6_levels(ctx, ci, "C12-R1")
+    # exports after queries: the exporters (and everything else) leave the
+    # flattened cache, which aliases the deepest level set, untouched
+    r9_cache_alias(ctx, ci, "C12-R6")
     mod = prog.module("regions")
 
     # ---------------------------------------------------------------- R2
